@@ -583,7 +583,31 @@ def run(project: Project, rep, tier: str):
             check_max_style(project, rep, q, I_)
     check_plot_diagrams(project, rep)
     check_landscape_plots(project, rep)
-    for rn, n in (("PL-SEG", 2), ("PL-IDX", 6), ("PL-FOOT", 6), ("PL-MAX", 1), ("PL-DGM", 4), ("PL-LIM", 4), ("PL-LAND", 2)):
+    # PL-PURE: a plot draws the data it is given and leaves them alone — in-place edits made while preparing the plot
+    # (lifetime conversion, moving infinite deaths onto the infinity line) must act on a private copy, otherwise a second
+    # plot of the same array shows different data
+    from .common import own_analysis
+    oa = own_analysis(project)
+    n_pure = 0
+    for q in ("persim.visuals.plot_diagrams", "persim.visuals.bottleneck_matching", "persim.visuals.wasserstein_matching",
+              "persim.landscapes.visuals.plot_landscape", "persim.landscapes.visuals.plot_landscape_simple"):
+        if q not in project.functions:
+            continue
+        f2 = project.functions[q]
+        s_ = oa.summary(q)
+        w_ = [ev for ev in s_.events if ev.kind == "write" and ev.origin.is_arg and ev.origin.param not in ("ax", "self")
+              and not (ev.needs_nd and isinstance(getattr(ev.node, "target", None), ast.Name))]
+        n_pure += 1
+        if w_:
+            ev = w_[0]
+            owner = project.functions.get(ev.func) or f2
+            rep.refuted("PL-PURE", owner, ev.node,
+                        f"{q} edits in place what its caller passed as `{ev.origin.param}` ({ev.how} on {ev.origin}): plotting "
+                        f"the same array again shows different data (e.g. the lifetime conversion applied twice, or the "
+                        f"infinity line gone)", construct=f"{q}({ev.origin.param}): {ast.unparse(ev.node)[:100]}")
+        else:
+            rep.discharged("PL-PURE", f2, f2.node, "no write event reaches the data passed in (conversions act on private copies)")
+    for rn, n in (("PL-SEG", 2), ("PL-IDX", 6), ("PL-FOOT", 6), ("PL-MAX", 1), ("PL-DGM", 4), ("PL-LIM", 4), ("PL-LAND", 2), ("PL-PURE", 5)):
         rep.floor(rn, n)
     for t in ("matplotlib.axes.Axes.plot", "matplotlib.axes.Axes.scatter", "matplotlib.pyplot.plot", "numpy.argmax",
               "numpy.ndarray.dot", "numpy.ndarray.astype"):
